@@ -1,4 +1,4 @@
-//! Reference model: physical table image (uncommitted effects in place), row locks, and per
+//! Reference model: physical table images (uncommitted effects in place), row locks, and per
 //! transaction a *before image* of every row it touched first (order independent: a rollback restores
 //! each touched row to that image; the product replays an undo log backwards instead).
 
@@ -24,34 +24,42 @@ pub enum TxState {
 pub struct MTx {
     pub eid: u64,
     pub state: TxState,
-    /// row id -> image at first touch (None = the row did not exist)
-    pub before: BTreeMap<u64, Option<Vals>>,
+    /// (table, row id) -> image at first touch (None = the row did not exist)
+    pub before: BTreeMap<(usize, u64), Option<Vals>>,
     /// bit 0 insert, bit 1 update (>= 1 row), bit 2 delete (>= 1 row)
     pub kinds: u8,
     /// an update/delete of this transaction ran while the column had exactly one index kind
-    /// (used only to classify signatures): [col] -> (hash only, btree only)
-    pub one_kind: [(bool, bool); NCOLS],
+    /// (used only to classify signatures): [table][col] -> (hash only, btree only)
+    pub one_kind: [[(bool, bool); NCOLS]; NTABS],
 }
 
 impl MTx {
+    pub fn new(eid: u64) -> Self {
+        MTx { eid, state: TxState::Live, before: BTreeMap::new(), kinds: 0, one_kind: [[(false, false); NCOLS]; NTABS] }
+    }
     pub fn dirty(&self) -> bool {
         !self.before.is_empty()
     }
 }
 
 #[derive(Clone, Debug, Default)]
-pub struct Model {
+pub struct TableM {
     pub rows: BTreeMap<u64, MRow>,
     /// row id -> handle of the live transaction holding the row lock
     pub locks: BTreeMap<u64, usize>,
-    pub txs: Vec<MTx>,
     pub hash: [bool; NCOLS],
     pub btree: [bool; NCOLS],
     pub max_id: u64,
     /// a rollback re-added index entries for a column that had only the other index kind
-    /// (signature classification only): ghost_btree[col], ghost_hash[col]
+    /// (signature classification only)
     pub ghost_btree: [bool; NCOLS],
     pub ghost_hash: [bool; NCOLS],
+}
+
+#[derive(Clone, Debug, Default)]
+pub struct Model {
+    pub tabs: [TableM; NTABS],
+    pub txs: Vec<MTx>,
     /// an index was created or dropped while a transaction had pending changes
     pub ddl_in_open_tx: bool,
 }
@@ -67,7 +75,7 @@ pub fn cmp_ok<T: Ord>(c: Cmp, l: &T, r: &T) -> bool {
     }
 }
 
-impl Model {
+impl TableM {
     pub fn id_of(&self, i: u16) -> u64 {
         1 + nv_engine::pick(i, self.max_id as usize + 1) as u64
     }
@@ -97,24 +105,8 @@ impl Model {
         self.rows.iter().filter(|(id, r)| r.alive && self.eval(c, **id, &r.vals)).map(|(id, _)| *id).collect()
     }
 
-    pub fn alive_rows(&self) -> Vec<(u64, Vals)> {
-        self.rows.iter().filter(|(_, r)| r.alive).map(|(id, r)| (*id, r.vals.clone())).collect()
-    }
-
-    pub fn live_handles(&self) -> Vec<usize> {
-        (0..self.txs.len()).filter(|h| self.txs[*h].state == TxState::Live).collect()
-    }
-
-    pub fn finished_handles(&self) -> Vec<usize> {
-        (0..self.txs.len()).filter(|h| self.txs[*h].state != TxState::Live).collect()
-    }
-
-    pub fn any_dirty_live(&self) -> bool {
-        self.txs.iter().any(|t| t.state == TxState::Live && t.dirty())
-    }
-
-    pub fn other_dirty_live(&self, me: Option<usize>) -> bool {
-        self.txs.iter().enumerate().any(|(h, t)| Some(h) != me && t.state == TxState::Live && t.dirty())
+    pub fn expected(&self, c: &Cond) -> Vec<(u64, Vals)> {
+        self.matching(c).into_iter().map(|id| (id, self.rows[&id].vals.clone())).collect()
     }
 
     pub fn indexed(&self) -> bool {
@@ -140,45 +132,69 @@ impl Model {
     pub fn touches_foreign_insert(&self, me: Option<usize>, ids: &[u64]) -> bool {
         ids.iter().any(|id| matches!(self.rows[id].ins_by, Some(h) if Some(h) != me))
     }
+}
 
-    fn touch(&mut self, me: Option<usize>, id: u64) {
+impl Model {
+    pub fn live_handles(&self) -> Vec<usize> {
+        (0..self.txs.len()).filter(|h| self.txs[*h].state == TxState::Live).collect()
+    }
+
+    pub fn finished_handles(&self) -> Vec<usize> {
+        (0..self.txs.len()).filter(|h| self.txs[*h].state != TxState::Live).collect()
+    }
+
+    pub fn any_dirty_live(&self) -> bool {
+        self.txs.iter().any(|t| t.state == TxState::Live && t.dirty())
+    }
+
+    pub fn other_dirty_live(&self, me: Option<usize>) -> bool {
+        self.txs.iter().enumerate().any(|(h, t)| Some(h) != me && t.state == TxState::Live && t.dirty())
+    }
+
+    pub fn lock_count(&self) -> usize {
+        self.tabs.iter().map(|t| t.locks.len()).sum()
+    }
+
+    fn touch(&mut self, me: Option<usize>, t: usize, id: u64) {
         if let Some(h) = me {
-            let img = self.rows.get(&id).filter(|r| r.alive).map(|r| r.vals.clone());
-            self.txs[h].before.entry(id).or_insert(img);
+            let img = self.tabs[t].rows.get(&id).filter(|r| r.alive).map(|r| r.vals.clone());
+            self.txs[h].before.entry((t, id)).or_insert(img);
         }
     }
 
-    fn note_one_kind(&mut self, me: Option<usize>, cols: [bool; NCOLS]) {
+    fn note_one_kind(&mut self, me: Option<usize>, t: usize, cols: [bool; NCOLS]) {
         if let Some(h) = me {
             for c in 0..NCOLS {
                 if cols[c] {
-                    if self.hash[c] && !self.btree[c] {
-                        self.txs[h].one_kind[c].0 = true;
+                    if self.tabs[t].hash[c] && !self.tabs[t].btree[c] {
+                        self.txs[h].one_kind[t][c].0 = true;
                     }
-                    if self.btree[c] && !self.hash[c] {
-                        self.txs[h].one_kind[c].1 = true;
+                    if self.tabs[t].btree[c] && !self.tabs[t].hash[c] {
+                        self.txs[h].one_kind[t][c].1 = true;
                     }
                 }
             }
         }
     }
 
-    pub fn apply_insert(&mut self, me: Option<usize>, id: u64, v: &Vals) {
-        self.touch(me, id);
-        self.rows.insert(id, MRow { vals: v.clone(), alive: true, ins_by: me });
-        self.max_id = self.max_id.max(id);
+    pub fn apply_insert(&mut self, me: Option<usize>, t: usize, id: u64, v: &Vals) {
+        self.touch(me, t, id);
+        let tab = &mut self.tabs[t];
+        tab.rows.insert(id, MRow { vals: v.clone(), alive: true, ins_by: me });
+        tab.max_id = tab.max_id.max(id);
         if let Some(h) = me {
             self.txs[h].kinds |= 1;
         }
     }
 
-    pub fn apply_update(&mut self, me: Option<usize>, ids: &[u64], s: &Sets) {
+    pub fn apply_update(&mut self, me: Option<usize>, t: usize, ids: &[u64], s: &Sets) {
         for id in ids {
-            self.touch(me, *id);
+            self.touch(me, t, *id);
+            let tab = &mut self.tabs[t];
             if let Some(h) = me {
-                self.locks.insert(*id, h);
+                tab.locks.insert(*id, h);
             }
-            let r = self.rows.get_mut(id).expect("matched row");
+            let r = tab.rows.get_mut(id).expect("matched row");
             if let Some(a) = s.a {
                 r.vals.a = a;
             }
@@ -190,23 +206,24 @@ impl Model {
             }
         }
         if !ids.is_empty() {
-            self.note_one_kind(me, [s.a.is_some(), s.b.is_some(), s.s.is_some(), false]);
+            self.note_one_kind(me, t, [s.a.is_some(), s.b.is_some(), s.s.is_some(), false]);
             if let Some(h) = me {
                 self.txs[h].kinds |= 2;
             }
         }
     }
 
-    pub fn apply_delete(&mut self, me: Option<usize>, ids: &[u64]) {
+    pub fn apply_delete(&mut self, me: Option<usize>, t: usize, ids: &[u64]) {
         for id in ids {
-            self.touch(me, *id);
+            self.touch(me, t, *id);
+            let tab = &mut self.tabs[t];
             if let Some(h) = me {
-                self.locks.insert(*id, h);
+                tab.locks.insert(*id, h);
             }
-            self.rows.get_mut(id).expect("matched row").alive = false;
+            tab.rows.get_mut(id).expect("matched row").alive = false;
         }
         if !ids.is_empty() {
-            self.note_one_kind(me, [true; NCOLS]);
+            self.note_one_kind(me, t, [true; NCOLS]);
             if let Some(h) = me {
                 self.txs[h].kinds |= 4;
             }
@@ -216,8 +233,8 @@ impl Model {
     pub fn finish(&mut self, h: usize, commit: bool) {
         let before = std::mem::take(&mut self.txs[h].before);
         if !commit {
-            for (id, img) in before {
-                let r = self.rows.get_mut(&id).expect("touched row");
+            for ((t, id), img) in before {
+                let r = self.tabs[t].rows.get_mut(&id).expect("touched row");
                 match img {
                     None => r.alive = false,
                     Some(v) => {
@@ -226,22 +243,26 @@ impl Model {
                     },
                 }
             }
-            for c in 0..NCOLS {
-                let (hash_only, btree_only) = self.txs[h].one_kind[c];
-                if hash_only {
-                    self.ghost_btree[c] = true;
-                }
-                if btree_only {
-                    self.ghost_hash[c] = true;
+            for t in 0..NTABS {
+                for c in 0..NCOLS {
+                    let (hash_only, btree_only) = self.txs[h].one_kind[t][c];
+                    if hash_only {
+                        self.tabs[t].ghost_btree[c] = true;
+                    }
+                    if btree_only {
+                        self.tabs[t].ghost_hash[c] = true;
+                    }
                 }
             }
         }
-        for r in self.rows.values_mut() {
-            if r.ins_by == Some(h) {
-                r.ins_by = None;
+        for tab in &mut self.tabs {
+            for r in tab.rows.values_mut() {
+                if r.ins_by == Some(h) {
+                    r.ins_by = None;
+                }
             }
+            tab.locks.retain(|_, o| *o != h);
         }
-        self.locks.retain(|_, o| *o != h);
         self.txs[h].state = if commit { TxState::Committed } else { TxState::RolledBack };
     }
 }
